@@ -39,21 +39,64 @@ class T(object):
         return py(self.I.static(static))
 
 
+NPROC = int(os.environ.get('VERIF_NPROC', '0') or 0) or min(16, os.cpu_count() or 1)
+
+
+def pmap(fn, items, nproc=None):
+    """fork-based parallel map (closures are inherited by fork; results are pickled back)"""
+    import pickle
+    nproc = nproc or NPROC
+    items = list(items)
+    if nproc <= 1 or len(items) < 400:
+        return [fn(x) for x in items]
+    chunks = [items[i::nproc] for i in range(nproc)]
+    kids = []
+    for ch in chunks:
+        r, w = os.pipe()
+        pid = os.fork()
+        if pid == 0:
+            os.close(r)
+            try:
+                out = ('ok', [fn(x) for x in ch])
+            except BaseException as ex:  # noqa
+                out = ('err', '%s: %s' % (type(ex).__name__, ex))
+            with os.fdopen(w, 'wb') as fh:
+                pickle.dump(out, fh)
+            os._exit(0)
+        os.close(w)
+        kids.append((pid, r))
+    results = []
+    for pid, r in kids:
+        with os.fdopen(r, 'rb') as fh:
+            data = fh.read()
+        os.waitpid(pid, 0)
+        results.append(pickle.loads(data) if data else ('err', 'worker died'))
+    out = [None] * len(items)
+    for i, (st, res) in enumerate(results):
+        if st != 'ok':
+            raise Unanalysable(res) if 'Unanalysable' in str(res) else RuntimeError(res)
+        out[i::nproc] = res
+    return out
+
+
 def table(ctx, rule, key, domain, impl, oracle, what, fmt=None, site=None):
     """compare impl(x) with oracle(x) for every x in a finite domain; one obligation"""
     from pete import Bottom, Unanalysable
     bad = []
-    n = 0
+    domain = list(domain)
+    n = len(domain)
+
+    def one(x):
+        try:
+            got = impl(x)
+        except Bottom as b:
+            got = 'PANIC(%s)' % b.reason
+        exp = oracle(x)
+        if got != exp:
+            return {'input': fmt(x) if fmt else repr(x), 'got': got, 'expected': exp}
+        return None
     try:
-        for x in domain:
-            n += 1
-            try:
-                got = impl(x)
-            except Bottom as b:
-                got = 'PANIC(%s)' % b.reason
-            exp = oracle(x)
-            if got != exp:
-                bad.append({'input': fmt(x) if fmt else repr(x), 'got': got, 'expected': exp})
+        bad = [b for b in pmap(one, domain) if b is not None]
     except Unanalysable as u:
         ctx.unanalysable(rule, key, '%s: %s' % (what, u))
         return False
